@@ -298,7 +298,12 @@ def gather_load_store_names(node):
     """
     load = set()
     store = set()
-    for nid, ctx in map(get_id_ctx, walk(node)):
+    for sub in walk(node):
+        if isinstance(sub, Lambda):
+            # parameters are ``ast.arg`` nodes, not Names: they are bound
+            # inside the lambda
+            store.update(_argument_names(sub.args))
+        nid, ctx = get_id_ctx(sub)
         if nid is None:
             continue
         elif isinstance(ctx, Load):
@@ -306,6 +311,16 @@ def gather_load_store_names(node):
         else:
             store.add(nid)
     return (load, store)
+
+
+def _argument_names(args):
+    """The parameter names of an ``ast.arguments`` node."""
+    names = [a.arg for a in args.posonlyargs + args.args + args.kwonlyargs]
+    if args.vararg is not None:
+        names.append(args.vararg.arg)
+    if args.kwarg is not None:
+        names.append(args.kwarg.arg)
+    return names
 
 
 def has_elts(x):
@@ -748,6 +763,17 @@ class CtxAwareTransformer(NodeTransformer):
         """Handle visiting a walrus operator (:=) expression."""
         self.ctxadd(node.target.id)
         self.generic_visit(node)
+        return node
+
+    def visit_Lambda(self, node):
+        """Handle visiting a lambda: the parameters are in scope while the
+        body is visited."""
+        params = set(_argument_names(node.args))
+        self.contexts.append(set(params))
+        self.generic_visit(node)
+        inner = self.contexts.pop()
+        # as before, names recorded while visiting the body stay recorded
+        self.ctxupdate(inner - params)
         return node
 
     def visit_Import(self, node):
